@@ -1,4 +1,4 @@
-//go:build verif
+//go:build verif || verifmin
 
 // Package zzverifrt is the runtime targeted by the calls the vinstr instrumenter injects
 // into a scratch copy of the library: loop ticks with an optional budget, and Pre/Post
